@@ -281,6 +281,40 @@ pub fn specs() -> Vec<PropSpec> {
             assumptions: COMMON_ASSUMPTIONS,
         },
         PropSpec {
+            id: "C15",
+            parts: &[("c15", 64, 4000)],
+            level: "fault_enumeration",
+            tags: &["C15"],
+            rule: "Each evaluation is one run of 2-4 signing rounds on an \
+                instance with a local trust-anchor proxy and signer and \
+                three children of the trust anchor (testbed, t1, t2). \
+                Per round one or both harness children take a key-roll \
+                step (certificate request or revocation request, so \
+                rounds carry 1-2 concurrent child requests); the harness \
+                is the courier: it obtains the proxy's signed request, \
+                lets the signer process it (through a cfg-gated entry \
+                point) and returns the signed response. Before the \
+                genuine message it delivers to the signer: the request \
+                signed with a foreign key, with the clear-text nonce \
+                changed and with the child requests removed after \
+                signing; after it: the same request again and the \
+                request of the previous round. To the proxy: a second \
+                make-request while one is open, the response of the \
+                previous round (stale nonce), the right content signed \
+                with a foreign key, a response whose clear text was \
+                altered after signing, one with a corrupted signed \
+                message, and after acceptance the same response again. \
+                Every such message must be refused and leave proxy state, \
+                signer state (both without the version counter), the \
+                number of signer exchanges and the repository content \
+                unchanged; the genuine ones must be accepted; each \
+                requesting child must then obtain its response; the \
+                trust anchor's manifest number must never decrease; the \
+                tree must be relying-party valid at the end. \
+                distinct_nontrivial counts distinct case labels.",
+            assumptions: COMMON_ASSUMPTIONS,
+        },
+        PropSpec {
             id: "C16",
             parts: &[("c12", 96, 6000)],
             level: "exploration",
@@ -508,6 +542,21 @@ pub fn run_profile(
         let res = std::thread::Builder::new()
             .stack_size(64 * 1024 * 1024)
             .spawn(move || crate::c12::run(seed))
+            .expect("spawn").join();
+        return match res {
+            Ok(report) => report,
+            Err(p) => RunReport {
+                seed,
+                profile: name.to_string(),
+                harness_error: Some(crate::util::panic_message(&p)),
+                ..Default::default()
+            }
+        }
+    }
+    if name == "c15" {
+        let res = std::thread::Builder::new()
+            .stack_size(64 * 1024 * 1024)
+            .spawn(move || crate::c15::run(seed))
             .expect("spawn").join();
         return match res {
             Ok(report) => report,
